@@ -109,11 +109,20 @@ fn layer_text(l: &Layer, mut idx: u64) -> String {
     t
 }
 
+/// Characters c for which the literal c and the class [c] are compared on every
+/// scalar value: case-regular letters, case-less characters, and members of
+/// the families whose simple case mappings are not one-to-one.
+const LITERAL_VS_CLASS: [char; 32] = [
+    'a', 'Z', '1', ' ', '\u{e9}', '\u{c9}', '\u{4e2d}', '\u{10400}', '\u{10428}', '\u{1F600}', '\u{3a9}', 'i', 'I', '\u{130}', '\u{131}', 's', 'S', '\u{17f}', 'k', 'K', '\u{212a}', '\u{b5}',
+    '\u{3bc}', '\u{39c}', '\u{3c3}', '\u{3c2}', '\u{3a3}', '\u{df}', '\u{1e9e}', '\u{1c4}', '\u{1c5}', '\u{1c6}',
+];
+
 fn space_for(tier: Tier) -> Space {
     let mut s = Space::new();
     for l in layers(tier) {
         s.list(l.name, layer_count(l), if l.all_scalars { 8 } else { 256 });
     }
+    s.list("literal vs one-character class, all scalar values", LITERAL_VS_CLASS.len() as u64, 1);
     s
 }
 
@@ -184,6 +193,12 @@ impl Check for C09 {
             crate::space::SegKind::List { name } => *name,
             _ => unreachable!(),
         };
+        if lname.starts_with("literal vs") {
+            for idx in lo..hi {
+                self.literal_vs_class(out, LITERAL_VS_CLASS[idx as usize]);
+            }
+            return;
+        }
         let layer = *layers(ctx.tier).iter().find(|l| l.name == lname).unwrap();
         let probes = probes();
         for idx in lo..hi {
@@ -245,6 +260,56 @@ impl Check for C09 {
 }
 
 impl C09 {
+    /// "[c] matches the same characters as the literal c": both forms are run over
+    /// the string of all scalar values; what they leave behind must be identical.
+    fn literal_vs_class(&self, out: &mut ChunkOut, c: char) {
+        let hay: String = (0u32..0x110000).filter_map(char::from_u32).collect();
+        let lit = c.to_string();
+        let cls = format!("[{}]", c);
+        for flags in ["", "i"] {
+            let mut left: Vec<String> = vec![];
+            for p in [&lit, &cls] {
+                let re = match imp::compile(p, flags, false) {
+                    Out::Ok(r) => r,
+                    _ => {
+                        out.inc("rejected_valid_or_crash");
+                        continue;
+                    }
+                };
+                out.pin(&|| format!("all scalars {:?} {:?}", p, flags));
+                match imp::with_fuel(400_000_000, || imp::replace_all(&re, &hay, "")) {
+                    Out::Ok(s) => left.push(s),
+                    _ => out.inc("inconclusive_crash"),
+                }
+            }
+            if left.len() != 2 {
+                continue;
+            }
+            out.add("states", 2 * 1_112_064);
+            out.add("validated", 2 * 1_112_064);
+            out.inc("nontrivial");
+            let (a, b) = (&left[0], &left[1]);
+            let (mut ia, mut ib) = (a.chars().peekable(), b.chars().peekable());
+            let mut reported = 0;
+            for x in hay.chars() {
+                // x is matched by a form iff it is missing from what that form left behind
+                let lit_matches = if ia.peek() == Some(&x) { ia.next(); false } else { true };
+                let cls_matches = if ib.peek() == Some(&x) { ib.next(); false } else { true };
+                if lit_matches != cls_matches && reported < 16 {
+                    reported += 1;
+                    out.fail(
+                        "C09",
+                        &Case::new("LITCLS", &cls, flags).input(&x.to_string()).api("replace_all"),
+                        "LiteralAndClassDiffer",
+                        &format!("literal {:?} matches: {}", lit, lit_matches),
+                        &format!("class {:?} matches: {}", cls, cls_matches),
+                        &format!("U+{:04X} over all scalar values", x as u32),
+                    );
+                }
+            }
+        }
+        out.sample(J::obj(vec![("literal", J::s(&lit)), ("class", J::s(&cls)), ("haystack", J::s("all 1,112,064 Unicode scalar values"))]));
+    }
     fn all_scalars(&self, ctx: &Ctx, out: &mut ChunkOut, text: &str, ce: &ClassExpr) {
         let hay: String = (0u32..0x110000).filter_map(char::from_u32).collect();
         let skip_cn = uses_category(ce);
